@@ -44,6 +44,23 @@ func init() {
 			}
 			return []*Job{a, b}
 		},
+		Extra: func(tier string, ld *Loaded, ev map[string]interface{}) []Finding {
+			// offsets are index x chunkSize: nowhere in the package may such a product be formed in 32 bits and widened afterwards
+			var out []Finding
+			sites := checkWidenedProducts(ld.Prog, "/internal/transfer", ev)
+			ev["extra_obligations"] = 1
+			if len(sites) == 0 {
+				ev["extra_discharged"] = 1
+			}
+			for _, w := range sites {
+				w := w
+				out = append(out, Finding{Obligation: "C19.offsets", Kind: "cfg", Msg: "a narrow product is widened after it may have wrapped: " + w[:strings.Index(w, ":")], Replay: func(dir string) (bool, string) {
+					os.WriteFile(dir+"/witness.txt", []byte(w+"\n"), 0o644)
+					return true, w
+				}})
+			}
+			return out
+		},
 	})
 
 	register(&PropCheck{
